@@ -94,8 +94,14 @@ class AsyncContext(object):
         if is_asyncio_mode():
             self.pause()
         else:
-            leave_context(self, self._active_task)
-            self.pause()
+            active_task = self._active_task
+            leave_context(self, active_task)
+            # The block can also be left while its task is suspended: the generator of a task
+            # that failed while paused, or that was abandoned, is closed. The scheduler has
+            # already paused the task's contexts then, so pausing again would break the
+            # resume/pause alternation (e.g. write back a stale value of a scoped override).
+            if active_task is None or active_task._contexts_active:
+                self.pause()
             del self._active_task
 
     def resume(self):
